@@ -232,7 +232,7 @@ class Ctx:
             "wall_s": round(wall, 2),
             "violations": len(new),
         }
-        if not self.replay_mode:
+        if not self.replay_mode and REPO == "/repo":  # runs against a scratch copy (mutants) leave the evidence alone
             os.makedirs(EVID, exist_ok=True)
             with open(os.path.join(EVID, self.prop + ".json"), "w") as f:
                 json.dump(ev, f, indent=1, default=str)
